@@ -174,6 +174,8 @@ def _input(draw, labelled, max_obj, max_sp, max_fam, polytomy=False, coherent=Tr
         "syn": None,
         "root_order": None,
     }
+    if spec["costs"]["hgt"] == "inf" and draw(st.booleans()):
+        spec["inf_as"] = "infinity"
     if pool is UNDERSCORE_SPECIES:
         names = list(pool[:nsp])
         intended = {leaf: next(sp for sp in sorted(names, key=len, reverse=True)
@@ -404,7 +406,12 @@ def spec_document(spec):
         "costs": {
             model.NodeEvent.SPECIATION: costs["spe"],
             model.NodeEvent.DUPLICATION: costs["dup"],
-            model.NodeEvent.HORIZONTAL_TRANSFER: costs["hgt"],
+            model.NodeEvent.HORIZONTAL_TRANSFER: (
+                # "forbidden" is written either as a float or as the `infinity` package's
+                # object, which the library itself uses for unreachable table cells
+                __import__("infinity").inf
+                if costs["hgt"] == float("inf") and spec.get("inf_as") == "infinity"
+                else costs["hgt"]),
             model.EdgeEvent.FULL_LOSS: costs["floss"],
             model.EdgeEvent.SEGMENTAL_LOSS: costs["sloss"],
         },
